@@ -140,6 +140,89 @@ def r5_module_import(ctx):
         ctx.check(bool(barms) and not hir.is_catch_all(barms[0][1]["pat"]), R, "%s|Binary" % key, "binaries have an arm (constant or heap bytes -> constant)", "no arm for Value::Binary")
 
 
+def r6_heap_index_scope(ctx):
+    R = "R-C10-6"
+    ctx.rule(R, "heap indices are scoped to the executor that issued them: the byte table extract_binary_data fills for a loaded module is created fresh "
+                "next to that module's executor, stored in the SAME CachedModule as the value, and value_to_instructions_from_cache resolves "
+                "Binary::Heap indices only through the table it was handed together with the value (never a table shared across modules)")
+    F = ctx.facts
+    COMP = "quiver_compiler::compiler::Compiler"
+    EXT = "quiver_compiler::compiler::modules::extract_binary_data"
+    callers = [(k, bi) for k, bi in F.callers_of(EXT) if k.split("::{closure")[0] != EXT]
+    ctx.floor(R, "module-load callers of extract_binary_data", len(callers), 1)
+    for k, bi in callers:
+        b = F.body(k)
+        fl = Flow(b)
+        fln = Flow(b, through_named=True)
+        t = b.blocks[bi]["term"]
+        mp = fl.canon_op(t["args"][2])
+        fresh = False
+        if mp and not mp[1]:
+            srcs = fl.sources(mp[0])
+            fresh = bool(srcs) and all(x[0] == "call" and (x[2].get("callee") or "").endswith("HashMap::new") for x in srcs)
+        ctx.check(fresh, R, "%s|fresh-table" % k, "the table passed to extract_binary_data is a fresh HashMap::new() local of the loading function",
+                  "extract_binary_data fills a table that outlives / is shared beyond this module load (heap index N of one module's executor aliases "
+                  "heap index N of another's: an imported binary silently becomes another module's)", b.loc(bi))
+        # the same table goes into the CachedModule that holds the module value
+        stored = False
+        for ai, si, st in agg_sites(b, "modules::CachedModule"):
+            for fname, o in zip(st["rv"]["fields"], st["rv"]["ops"]):
+                pl = op_place(o)
+                if pl and mp and fl.canon_place(pl)[0] == mp[0] and b.reaches(bi, ai):
+                    stored = True
+        ctx.check(stored, R, "%s|table-with-value" % k, "the filled table is stored in the CachedModule built for this module value",
+                  "the byte table is not stored with the module value it belongs to", b.loc(bi))
+    # the consumer resolves heap indices through its own table parameter
+    key = COMP + "::value_to_instructions_from_cache"
+    vb = F.body(key)
+    vfl = Flow(vb, through_named=True)
+    tabs = [l["i"] for l in vb.params() if "HashMap<usize, alloc::vec::Vec<u8>" in l["ty"]]
+    ctx.check(bool(tabs), R, key + "|table-param", "the byte table is a parameter (handed over with the value)",
+              "value_to_instructions_from_cache no longer receives the byte table with the value: heap indices are resolved in some longer-lived table", vb.loc(0))
+    if tabs:
+        gets = [(bi, t) for bi, t in vb.calls() if (t.get("callee") or "").endswith("HashMap::get") and "Vec<u8>" in (vb.local_ty(t["dest"]["l"]) or "")]
+        ok = bool(gets) and all(tabs[0] in vfl.backward({op_place(t["args"][0])["l"]}) for _bi, t in gets)
+        ctx.check(ok, R, key + "|lookup-in-param", "Binary::Heap indices are looked up in the table parameter (%d lookup(s))" % len(gets),
+                  "a heap index is looked up in a table other than the one handed over with the value", vb.loc(gets[0][0]) if gets else vb.loc(0))
+        # recursion passes the same table on; outside callers pass the table of the CachedModule the value was resolved from
+        for k, bi in F.callers_of(key):
+            b = F.body(k)
+            fl = Flow(b, through_named=True)
+            t = b.blocks[bi]["term"]
+            if len(t["args"]) < 3:
+                continue
+            tp = op_place(t["args"][2])
+            vp = op_place(t["args"][1])
+            site = "%s|value-and-table" % k.split("::{closure")[0]
+            if k.split("::{closure")[0] == key:
+                ok = tp is not None and tabs[0] in fl.backward({tp["l"]})
+                ctx.check(ok, R, site + "|rec", "recursive calls pass the same table on", "a recursive call switches to a different byte table", b.loc(bi))
+                continue
+            tb = fl.backward({tp["l"]}) if tp else set()
+            vbk = fl.backward({vp["l"]}) if vp else set()
+            # both derive from the result of one resolve_import / one CachedModule
+            common = [cb for cb, ct in b.calls() if ct.get("dest") and ct["dest"]["l"] in tb and ct["dest"]["l"] in vbk]
+            fields = fl.slice_reads(tp["l"])[0] if tp else set()
+            from_cached = any(f == "binary_data" and (o or "").endswith("modules::CachedModule") for o, f in fields)
+            ctx.check(bool(common) and from_cached, R, site, "the value and its byte table come from the same resolved CachedModule",
+                      "value_to_instructions_from_cache is handed a byte table that does not belong to the value's module", b.loc(bi))
+
+
+def r7_load_time_tables(ctx):
+    """a module body evaluated at compile time (module import) runs with the same runtime type tables as in-place evaluation: every ProgramUpdate
+    literal (execute_bytecode_sync_with included) computes them from the full program (shared with R-C08-2)"""
+    from rules import c08
+    before = len(ctx.obs)
+    c08.r2_tables_describe_whole_program(ctx)
+    for o in ctx.obs[before:]:
+        o["rule"] = "R-C10-7"
+    if "R-C08-2" in ctx.rules:
+        ctx.rules["R-C10-7"] = ctx.rules.pop("R-C08-2")
+    for f in ctx.floors:
+        if f["rule"] == "R-C08-2":
+            f["rule"] = "R-C10-7"
+
+
 def r1_remap_completeness(ctx):
     c07.r2_index_fields(ctx, "R-C10-1")
 
@@ -149,7 +232,7 @@ def r2_remap_construction(ctx):
 
 
 def run(ctx):
-    ctx.run_rules([r1_remap_completeness, r2_remap_construction, r3_serde_symmetry, r4_capture_injection, r5_module_import])
+    ctx.run_rules([r1_remap_completeness, r2_remap_construction, r3_serde_symmetry, r4_capture_injection, r5_module_import, r6_heap_index_scope, r7_load_time_tables])
     ctx.note("R-C10-1 also decides mark ⊇ sweep: every sweep lookup that unwrap()s is for an id class the mark phase records for the same variant")
     ctx.note("NOT decided: that `%m.f` behaves like in-place evaluation, or equality of results across the four execution routes (needs evaluation)")
     return (
